@@ -81,7 +81,7 @@ TEXT = {
     "C13": dict(
         technique="fault-sequence property test (rapid): generated sequences of losses, refusals and failing reconnection attempts against a Client run by StreamManager; oracle on the scripted peer's accept log",
         level_text="Fault enumeration over the loss alphabet {TCP reset, graceful close, </stream:stream>} x {server keeps listening, refuses connections for a while} x {0-3 reconnection attempts cut at stream open / auth / bind} x {resumption confirmed, refused} x {finally accepted, permanently rejected by SASL failure}, composed into generated sequences of 1-3 losses. After each loss exactly one new session must appear (resumed when allowed), exactly failing-attempts+1 connections may reach the server, the new session must carry traffic both ways, PostConnect must have run once per session, a permanent error must end the retries, Stop must make Run return.",
-        level_note="64 sequences quick (each costs seconds: every failed attempt waits ConnectTimeout = 1 s in the library's Close), 2500 thorough. Waiting times are bounded (8 s + down time per reconnection; confirmed with 4x margins before a violation is reported); the number of refused dial attempts while the listener is closed cannot be observed and is not asserted.",
+        level_note="64 sequences quick (each costs seconds: every failed attempt waits ConnectTimeout = 1 s in the library's Close), 2500 thorough. Waiting times are bounded (8 s + down time per reconnection; confirmed with 4x margins before a violation is reported); the number of refused dial attempts while the listener is closed cannot be observed and is not asserted. Sessions are counted, not attempts; a permanent error is only asserted when the refusing connection got as far as <auth/>; verdicts about the number of sessions depend on schedules the harness does not own and are confirmed by one re-run of the same case (DESIGN.md section 6 describes an unexplained residue of about one sequence in a thousand).",
     ),
     "C11": dict(
         technique="history/fault-sequence property test (rapid): connection histories with every reply to <resume/>, real Client (Connect + Resume) against the scripted peer; model of the resumable id and counters",
